@@ -163,7 +163,11 @@ func setup(w *World, ex []bool) (*base, error) {
 			return nil, err
 		}
 		b.staged = append(b.staged, sum)
-		b.table = append(b.table, TableSum(11+i))
+		table := TableSum(11 + i)
+		if c, err := objects.GetCommit(w.DB, sum); err == nil {
+			table = c.Table // CLI mode: the table `wrgl commit --txid` ingested
+		}
+		b.table = append(b.table, table)
 	}
 	return b, nil
 }
@@ -357,6 +361,9 @@ func Replay(i int, raw []byte) child.Result {
 	defer w.Close()
 	b, err := setup(w, sc.Ex)
 	if err != nil {
+		if d, ok := err.(*StageDefect); ok {
+			return child.Fail("txn/stage/not-staged/cli", map[string]interface{}{"observed": d.What})
+		}
 		return child.Inconclusive(fmt.Errorf("setup: %v", err))
 	}
 	mode := "lib"
